@@ -170,5 +170,90 @@ theorem notNeg_normalized {n : Nat} (b : Tab (XQ f) n) (u : XQ f) (hb : ∀ i : 
   simp only [Fin.getElem_fin, Vector.getElem_map]
   exact notNeg_div (hb i) hs
 
+/-! ### more closure properties, for `uncertainty_maximized` (repair 8520ade) -/
+
+theorem notNeg_zero : NotNeg (Scalar.zero : XQ f) := (notNeg_fin (q := 0)).mpr (le_refl 0)
+theorem notNeg_one : NotNeg (Scalar.one : XQ f) := (notNeg_fin (q := 1)).mpr zero_le_one
+
+theorem notNeg_mul {a b : XQ f} (ha : NotNeg a) (hb : NotNeg b) : NotNeg (a * b) := by
+  show NotNeg (XQ.mul a b)
+  cases a with
+  | nan => cases b <;> exact notNeg_nan
+  | ninf => exact absurd ha not_notNeg_ninf
+  | pinf =>
+    cases b with
+    | nan => exact notNeg_nan
+    | ninf => exact absurd hb not_notNeg_ninf
+    | pinf => exact notNeg_pinf
+    | fin q =>
+      rw [notNeg_fin] at hb
+      by_cases hq : q = 0
+      · subst hq; exact notNeg_nan
+      · have : XQ.mul (pinf : XQ f) (fin q) = pinf := by
+          simp [XQ.mul, XQ.isZeroFin, XQ.nonneg, hq, hb]
+        rw [this]; exact notNeg_pinf
+  | fin p =>
+    cases b with
+    | nan => exact notNeg_nan
+    | ninf => exact absurd hb not_notNeg_ninf
+    | pinf =>
+      rw [notNeg_fin] at ha
+      by_cases hp : p = 0
+      · subst hp; exact notNeg_nan
+      · have : XQ.mul (fin p : XQ f) pinf = pinf := by
+          simp [XQ.mul, XQ.isZeroFin, XQ.nonneg, hp, ha]
+        rw [this]; exact notNeg_pinf
+    | fin q =>
+      show NotNeg (fin (p * q))
+      rw [notNeg_fin] at *
+      exact mul_nonneg ha hb
+
+/-- `min` (NaN operands skipped) returns one of its operands -/
+theorem min_eq_or (a b : XQ f) : Scalar.min a b = a ∨ Scalar.min a b = b := by
+  unfold Scalar.min
+  split
+  · exact Or.inr rfl
+  · split
+    · exact Or.inl rfl
+    · split
+      · exact Or.inr rfl
+      · exact Or.inl rfl
+
+theorem notNeg_min {a b : XQ f} (ha : NotNeg a) (hb : NotNeg b) : NotNeg (Scalar.min a b) := by
+  rcases min_eq_or a b with h | h <;> rw [h] <;> assumption
+
+theorem notNeg_sumLoop {n : Nat} (v : Tab (XQ f) n) (h : ∀ i : Fin n, NotNeg v[i]) :
+    NotNeg (Tab.sumLoop v) := notNeg_sumIter v h
+
+/-- the uncertainty of `Simplex::normalized(b, u)` never compares above one when neither the total of the masses nor
+    `u` compares below zero: `u / (S + u)` is NaN (`0/0`, `∞/∞`, NaN operands), `0` (`S = +∞`) or a quotient `≤ 1` -/
+theorem not_one_lt_div_add {S u : XQ f} (hS : NotNeg S) (hu : NotNeg u) :
+    Scalar.lt (Scalar.one : XQ f) (u / (S + u)) = false := by
+  show XQ.lt (fin 1) (XQ.div u (XQ.add S u)) = false
+  cases u with
+  | nan => cases S <;> rfl
+  | ninf => exact absurd hu not_notNeg_ninf
+  | pinf =>
+    cases S with
+    | nan => rfl
+    | ninf => exact absurd hS not_notNeg_ninf
+    | pinf => rfl
+    | fin s => rfl
+  | fin q =>
+    cases S with
+    | nan => rfl
+    | ninf => exact absurd hS not_notNeg_ninf
+    | pinf => show XQ.lt (fin 1) (fin 0) = false; simp [XQ.lt]
+    | fin s =>
+      rw [notNeg_fin] at hS hu
+      show XQ.lt (fin 1) (XQ.div (fin q) (fin (s + q))) = false
+      by_cases hz : s + q = 0
+      · have hq : q = 0 := by linarith
+        subst hq
+        simp [XQ.div, hz, XQ.lt]
+      · have hpos : 0 < s + q := lt_of_le_of_ne (add_nonneg hS hu) (Ne.symm hz)
+        have : q / (s + q) ≤ 1 := by rw [div_le_one hpos]; linarith
+        simp [XQ.div, hz, XQ.lt, this]
+
 end XQ
 end SLV
